@@ -252,8 +252,8 @@ import "github.com/google/gopacket"
 //@ props C03 C04
 //@ option nilable:h
 //@ assigns hashstate(h)
-//@ ensures [C03.exec-nil] isnil(h) ==> isnil(result)
-//@ ensures [C03.exec-digest] !isnil(h) ==> hIsDigest(result, old(hAbsorb(hState(h), b))) && len(result) == hSizeOf(h) && hState(h) == hInit(h)
+//@ ensures [C03+C04.exec-nil] isnil(h) ==> isnil(result)
+//@ ensures [C03+C04.exec-digest] !isnil(h) ==> hIsDigest(result, old(hAbsorb(hState(h), b))) && len(result) == hSizeOf(h) && hState(h) == hInit(h)
 
 //@ func (*V2Session).SerializeTo
 //@ props C03 C06 C05 C08
